@@ -618,8 +618,14 @@ type ExprBinOpRef<'a> = (&'a Sp<ast::Expr>, Sp<ast::BinOpKind>, &'a Sp<ast::Expr
 impl JmpKind {
     fn as_binop_cond(&self) -> Option<(Sp<ast::CondKeyword>, Sp<ExprBinOpRef<'_>>)> {
         match *self {
-            JmpKind::Cond { keyword, cond: sp_pat!(span => ast::Expr::BinOp(ref a, op, ref b)) }
-                => Some((keyword, sp!(span => (a, op, b)))),
+            JmpKind::Cond { keyword, cond: sp_pat!(span => ast::Expr::BinOp(ref a, op, ref b)) } => {
+                // A counting jump (`--x > 0`) has a side effect and only exists as a jump instruction;
+                // it cannot become the (negated) condition of an `if` block.
+                if matches!(a.value, ast::Expr::XcrementOp { .. }) || matches!(b.value, ast::Expr::XcrementOp { .. }) {
+                    return None;
+                }
+                Some((keyword, sp!(span => (a, op, b))))
+            },
 
             _ => None,
         }
